@@ -100,11 +100,13 @@ def census_clauses(total):
     out = {}
     for m, (tab, kind) in TABLES_TRACK.items():
         out["%s-table-grows-by-the-number-of-%ss-with-that-status" % (kind, kind)] = (
-            "dict_value(%s, probe_status().name) == old(dict_value(%s, probe_status().name)) + %s" % (tab, tab, total(m)))
+            "implies(has_key(%s, probe_status().name), dict_value(%s, probe_status().name) == "
+            "old(dict_value(%s, probe_status().name)) + %s)" % (tab, tab, tab, total(m)))
     out["failing-listing-grows-by-the-number-of-failed-scenarios"] = (
         "len(self._failed_scenarios) == old(len(self._failed_scenarios)) + %s" % total(3))
     out["errored-listing-grows-by-the-number-of-error-class-scenarios"] = (
         "len(self._errored_scenarios) == old(len(self._errored_scenarios)) + %s" % total(4))
+    out["tables-still-hold-integers"] = TABLES_INT
     out["no-rows-added-or-removed"] = (
         "forall_val(lambda s: has_key(self.step_summary, s) == old(has_key(self.step_summary, s))) and "
         "forall_val(lambda s: has_key(self.scenario_summary, s) == old(has_key(self.scenario_summary, s))) and "
@@ -112,7 +114,11 @@ def census_clauses(total):
     return out
 
 
+TABLES_INT = " and ".join(
+    "forall_val(lambda s: implies(has_key(self.%s, s), has_kind(dict_value(self.%s, s), 'int')))" % (t, t)
+    for t in ("feature_summary", "rule_summary", "scenario_summary", "step_summary"))
 V1_REQ = {
+    "tables-hold-integers": TABLES_INT,
     "two-lists": "self._failed_scenarios is not self._errored_scenarios",
     "tables-are-distinct": "self.scenario_summary is not self.step_summary and self.scenario_summary is not self.rule_summary "
                            "and self.step_summary is not self.rule_summary and self.feature_summary is not self.rule_summary "
@@ -135,10 +141,11 @@ contract(RS + "SummaryReporterV1.process_scenario", props=P,
          modifies=V1_MOD,
          loops=[Loop(invariant={
              "steps-so-far-counted-under-their-status":
-                 "dict_value(self.step_summary, probe_status().name) == pre(dict_value(self.step_summary, probe_status().name)) "
-                 "+ cnt_steps(all_steps_of(scenario), _i)",
+                 "implies(has_key(self.step_summary, probe_status().name), dict_value(self.step_summary, probe_status().name) == "
+                 "pre(dict_value(self.step_summary, probe_status().name)) + cnt_steps(all_steps_of(scenario), _i))",
              "rows-kept": "forall_val(lambda s: has_key(self.step_summary, s) == pre(has_key(self.step_summary, s)))",
              "same-walk": "_seq is all_steps_of(scenario)",
+             "tables-hold-integers": TABLES_INT,
          }, modifies=["dict(self.step_summary)", "*._cached_status"])],
          ensures=dict(census_clauses(lambda m: "leaf(scenario, %d)" % m), **{
              "scenario-counted-once-under-its-status-and-no-other-row-touched":
@@ -156,7 +163,8 @@ def census_invariant(total_i):
     inv = {}
     for m, (tab, kind) in TABLES_TRACK.items():
         inv["%s-table-tracks-the-census-so-far" % kind] = (
-            "dict_value(%s, probe_status().name) == pre(dict_value(%s, probe_status().name)) + %s" % (tab, tab, total_i(m)))
+            "implies(has_key(%s, probe_status().name), dict_value(%s, probe_status().name) == "
+            "pre(dict_value(%s, probe_status().name)) + %s)" % (tab, tab, tab, total_i(m)))
     inv["listings-track-the-census-so-far"] = (
         "len(self._failed_scenarios) == pre(len(self._failed_scenarios)) + %s and "
         "len(self._errored_scenarios) == pre(len(self._errored_scenarios)) + %s" % (total_i(3), total_i(4)))
@@ -164,6 +172,7 @@ def census_invariant(total_i):
                         "forall_val(lambda s: has_key(self.scenario_summary, s) == pre(has_key(self.scenario_summary, s))) and "
                         "forall_val(lambda s: has_key(self.rule_summary, s) == pre(has_key(self.rule_summary, s)))")
     inv["reporter-shape-kept"] = V1_REQ["two-lists"] + " and " + V1_REQ["tables-are-distinct"]
+    inv["tables-hold-integers"] = TABLES_INT
     return inv
 
 
